@@ -52,16 +52,18 @@ pub fn run_case(id: &str, r: &mut Rng, out: &mut String) {
     let home = root.join("home");
     let _ = std::fs::create_dir_all(&home);
     let k = r.below(100);
-    if k < 40 {
+    if k < 35 {
         files_case(id, r, &root, &home, out);
-    } else if k < 65 {
+    } else if k < 58 {
         summary_case(id, r, &root, &home, out);
-    } else if k < 80 {
+    } else if k < 73 {
         symbase_case(id, r, &root, &home, out);
-    } else if k < 90 {
+    } else if k < 82 {
         spelling_case(id, r, &root, &home, out);
-    } else {
+    } else if k < 89 {
         options_case(id, r, &root, &home, out);
+    } else {
+        sumlocal_case(id, r, out);
     }
     let _ = std::fs::remove_dir_all(&root);
 }
@@ -415,6 +417,79 @@ fn options_case(id: &str, r: &mut Rng, root: &Path, home: &Path, out: &mut Strin
         Err(_) => out.push_str(&format!("impl skipped exit={}\n", rc)),
     }
     out.push_str(&format!("repro {}\nend\n", oneline(&format!("acb {}\n--- in.csv\n{}", args.iter().map(|a| format!("'{}'", a)).collect::<Vec<_>>().join(" "), csv))));
+}
+
+/// kind=sumlocal (C08, C10): the summary of two securities given together is, security by security,
+/// the summary of each given alone (library entry point; implementation only).
+fn sumlocal_case(id: &str, r: &mut Rng, out: &mut String) {
+    let mut names = vec!["Default".to_string()];
+    let (mut rows0, _) = app::gen_security(r, "S0", &mut names);
+    let (mut rows1, _) = app::gen_security(r, "S1", &mut names);
+    for rows in [&mut rows0, &mut rows1] {
+        rows.retain(|t| match &t.action_specifics {
+            TxActionSpecifics::Sfla(_) => false,
+            TxActionSpecifics::Sell(s) => s.specified_superficial_loss.is_none(),
+            _ => true,
+        });
+    }
+    if rows0.is_empty() || rows1.is_empty() {
+        return;
+    }
+    // a summary date inside the period both securities trade in, often after one of them has stopped
+    let days: Vec<i32> = rows0.iter().chain(rows1.iter()).map(|t| jd(t.settlement_date)).collect();
+    let cut = *r.pick(&days) + *r.pick(&[0i32, 0, 1, -1, 10, 40]);
+    let annual = r.chance(30);
+    let all = app::interleave(r, vec![rows0.clone(), rows1.clone()]);
+    let run = |rows: &[Tx]| -> Option<Vec<String>> {
+        let csv = app::txs_to_csv_spelled(rows, 0);
+        let readers = vec![DescribedReader::from_string("in.csv".to_string(), csv)];
+        let options = Options { split_annual_summary_gains: annual, ..Options::default() };
+        let lib = catch(move || {
+            async_std::task::block_on(run_acb_app_summary_to_model(
+                date_from_jd(cut),
+                readers,
+                HashMap::new(),
+                options,
+                app::rate_loader(),
+                WriteHandle::empty_write_handle(),
+            ))
+        });
+        match lib {
+            Ok(Ok(data)) => {
+                let mut v = Vec::new();
+                for t in &data.txs {
+                    let (mut wh, sb) = WriteHandle::string_buff_write_handle();
+                    write_txs_to_csv(&vec![t.to_csvtx()], &mut wh).ok();
+                    let line = sb.borrow().as_str().lines().nth(1).unwrap_or("").to_string();
+                    v.push(format!("{}|{}", t.security, line));
+                }
+                Some(v)
+            }
+            _ => None,
+        }
+    };
+    let (a, b, ab) = (run(&rows0), run(&rows1), run(&all));
+    out.push_str(&format!("case {} cli kind=sumlocal annual={} rows={}\n", id, annual as u8, all.len()));
+    match (a, b, ab) {
+        (Some(a), Some(b), Some(ab)) => {
+            let of = |v: &Vec<String>, sec: &str| -> Vec<String> { v.iter().filter(|l| l.starts_with(&format!("{}|", sec))).cloned().collect() };
+            // the written columns depend on the whole list; compare the cells that are always there
+            let key = |l: &String| -> String { l.split(',').take(8).collect::<Vec<_>>().join(",") };
+            let same = |x: Vec<String>, y: Vec<String>| x.iter().map(key).collect::<Vec<_>>() == y.iter().map(key).collect::<Vec<_>>();
+            if same(of(&ab, "S0"), a.clone()) && same(of(&ab, "S1"), b.clone()) {
+                out.push_str(&format!("impl same exit=0 bytes={}\n", ab.len()));
+            } else {
+                out.push_str(&format!(
+                    "impl differ exit=0/0 together: {} | S0 alone: {} | S1 alone: {}\n",
+                    oneline(&ab.join(" ; ")),
+                    oneline(&a.join(" ; ")),
+                    oneline(&b.join(" ; "))
+                ));
+            }
+        }
+        _ => out.push_str("impl skipped exit=0\n"),
+    }
+    out.push_str(&format!("repro {}\nend\n", oneline(&format!("summary before {} annual={} of both securities vs each alone\n--- in.csv\n{}", date_str(date_from_jd(cut)), annual, app::txs_to_csv_spelled(&all, 0)))));
 }
 
 pub fn cleanup() {
